@@ -2678,7 +2678,7 @@ class UTPM(Ring, RawAlgorithmsMixIn):
             out = (x.zeros_like(),)
 
         xbar, = out
-        Nx = xbar.shape[0]
+        Nx = min(xbar.shape[:2])
         for nx in range(Nx):
             xbar[nx,nx] += ybar
 
